@@ -6,7 +6,7 @@ backup||backup), then a further prune, check(read_data) and restore of every sna
 the property); the recorded, decoded operation log of every case is replayed through the
 extracted transition function and the model's final abstract state compared with the real
 store; the model's `timely` / `short_backups` predicates classify whether a schedule is inside
-the property's premise; replay of the `slow_prune_refuted` witness on the real code."""
+the property's premise; the former `slow_prune_refuted` schedule is replayed on the real code (scenario 3: must be safe since fix 8ab7696)."""
 import os, re, sys
 import vlib
 from vlib import sh2, log
@@ -45,7 +45,7 @@ def kv(head):
 MK = re.compile(r"(\d+)@(-?\d+):")
 
 
-def final_equal(a, b):
+def final_equal(a, b, stamp_before_upload=False):
     """FINAL segments equal, mark times compared with a tolerance of 2 ticks (the plan time is
     read off the clock between two logged operations)."""
     if a == b:
@@ -55,10 +55,14 @@ def final_equal(a, b):
         return False
     ta = sorted((int(p), int(t)) for p, t in MK.findall(a))
     tb = sorted((int(p), int(t)) for p, t in MK.findall(b))
-    return len(ta) == len(tb) and all(x[0] == y[0] and abs(x[1] - y[1]) <= 2 for x, y in zip(ta, tb))
+    # a = model, b = real.  When a prune was parked INSIDE its index write, the real stamp (taken right before
+    # the write) precedes the completion of the write, which is when the model stamps (atomic index write)
+    ok = lambda m, r: abs(m - r) <= 2 or (stamp_before_upload and r <= m)
+    return len(ta) == len(tb) and all(x[0] == y[0] and ok(x[1], y[1]) for x, y in zip(ta, tb))
 
 
 SIG = "prune-marks-carry-plan-time"
+SIG2 = "prune-mark-stamp-precedes-index-upload"
 
 
 def run(ctx):
@@ -76,7 +80,7 @@ def run(ctx):
         "at most one prune is active at a time (prune||prune is outside the property); therefore the index files a prune listed stay present and immutable until that prune removes them, and loading them is modelled as one step",
         "the per-pack decision of a prune is supplied by the event and constrained by plan_ok (what decide_packs/check_existing_packs guarantee: admissible to-dos per mark state, Delete only if mark_time + keep_delete <= plan time, every used blob owned by a kept/recovered/repacked existing pack); the exact accounting of duplicates is property C02",
         "next_prune_recovers: the further prune runs alone to completion (PStart .. PDone, no abort, no concurrent event); no timing hypothesis",
-        "hypothesis of no_referenced_pack_deleted (`timely`): (a) while a backup runs, no pack it saw unmarked or wrote itself carries a mark whose keep-delete time has expired; (b) a prune deletes only packs whose keep-delete time had expired when that prune started. The literal premise of the property (keep_delete > backup duration) is weaker: slow_prune_refuted",
+        "hypothesis of no_referenced_pack_deleted (`timely`): (a) while a backup runs, no pack it saw unmarked or wrote itself carries a mark whose keep-delete time has expired; (b) a prune deletes only packs whose keep-delete time had expired when that prune started. With the repaired source (fix 8ab7696: marks stamped at the index write, plan time taken before the scan) (b) holds by construction (timely_b_by_construction) and (a) follows from the premise `a running backup started before the marks on its packs were published and is younger than keep_delete` (started_before_publication_safe); residual window: a backup that lists the index after the new index was written but reads an old index file before the prune removed it",
         "blob identity is untyped in the model (typed/untyped collisions are C02/C13); forget is a plain snapshot removal",
         "real clock: keep_delete of 0.3-2 s with sleeps; ticks of 10 ms in the replay"]
     try:
@@ -128,9 +132,13 @@ def run(ctx):
         exp += [(4, k, v) for k in (0, 1, 2) for v in (37, 5, 45, 13, 39)] + [(0, k, 37) for k in (1, 2)]
     for scen, k, v in exp:
         lines.append("%d %d %d 0 %d %d" % (rng.randrange(1, 2 ** 40), scen, k, kds, v))
-    nwit = 3 if thorough else 1
-    for _ in range(nwit):
-        lines.append("%d 3 0 0 %d 0" % (rng.randrange(1, 2 ** 40), rng.choice([1500, 2000])))
+    # hazard (b) of the former finding: a backup finishes between the deleting prune's snapshot scan and its
+    # pack listing, the marks expire in between (prune parked before list_with_size(Pack))
+    for v in ([0, 32, 0, 32] if thorough else [0, 32]):
+        lines.append("%d 6 0 0 1000 %d" % (rng.randrange(1, 2 ** 40), v))
+    # the slow-prune schedule: prune 1 parked during repacking (variant 2) / inside its index write (variant 0)
+    for v in ([2, 2, 2, 2, 2, 2, 0, 0] if thorough else [2, 2, 2, 0]):
+        lines.append("%d 3 0 0 %d %d" % (rng.randrange(1, 2 ** 40), 1500, v))
 
     outs = run_parallel(impl, lines, "impl")
     parsed, mlines = [], []
@@ -145,12 +153,15 @@ def run(ctx):
     mouts = run_lines(model, mlines, "model") if model else []
     if model:
         wit = run_lines(model, ["x"], "wit", mode="witness")[0]
-        if wit != "witness run=ok all_stored=false short=true" and r["ok"]:
-            r["ok"] = False; r["failures"].append("extracted model does not reproduce the slow_prune witness: " + wit)
+        repaired = bool(meta and meta.get("marks_stamped_at_write") and not meta.get("plan_time_after_scan"))
+        cov["source_repaired"] = repaired
+        want_wit = "witness run=rejected" if repaired else "witness run=ok all_stored=false short=true"
+        if wit != want_wit and r["ok"]:
+            r["ok"] = False; r["failures"].append("extracted model on the slow_prune schedule: %s, expected %s" % (wit, want_wit))
 
     hist, todo_hist = {}, {}
     stats = {"cases": len(lines), "A_parked": 0, "B_parked": 0, "A_failed": 0, "B_failed": 0, "premise_violated": 0,
-             "outside_literal_premise": 0, "witness_reproduced": 0, "witness_runs": 0, "lost_inside_premise": 0, "recover_after_expiry": 0,
+             "outside_literal_premise": 0, "witness_reproduced": 0, "witness_runs": 0, "stamp_precedes_upload": 0, "slow_prune_safe_runs": 0, "lost_inside_premise": 0, "recover_after_expiry": 0,
              "by_scenario": {}}
     nontriv = 0
     mism, viol, samples = [], [], []
@@ -185,21 +196,28 @@ def run(ctx):
             samples.append({"case": ln, "result": segs_short(h), "model": {k_: mh.get(k_) for k_ in ("run", "steps", "timely", "stored_always", "held_always", "closed_final")},
                             "events_head": evs[:400]})
         if scen == 3:
+            # the former slow_prune_refuted schedule.  Prune 1 parked at a repack pack write: the marks are
+            # stamped after the park (fix), the backup must be safe.  Parked inside the index write: the marks
+            # were stamped before the upload of the index file completed - the residual, inherent window.
             stats["witness_runs"] += 1
-            if lost:
+            inside_literal = int(h["durB"]) < int(h["kd"]) * 10
+            if lost and not inside_literal:
+                stats["outside_literal_premise"] += 1
+            elif lost and h.get("firstA") == "index":
+                stats["stamp_precedes_upload"] += 1
+                ctx.violation("a backup shorter than keep_delete (%s ms < %s ms) that loads the index WHILE the index file carrying the delete marks is being uploaded (prune parked inside that write for 0.6 keep_delete) loses data when a second prune deletes the packs: the marks are stamped before the upload completes"
+                              % (h["durB"], int(h["kd"]) * 10),
+                              {"case": ln, "how_to_replay": "echo '<case>' | <harness>/debug/c10 -", "result": segs_short(h)},
+                              signature=SIG2)
+            elif lost:
                 stats["witness_reproduced"] += 1
-                inside_literal = int(h["durB"]) < int(h["kd"]) * 10
-                if not inside_literal:
-                    stats["outside_literal_premise"] += 1
-                    continue
-                ctx.violation("a backup shorter than keep_delete (%s ms < %s ms) loses data when a slow prune publishes marks dated with its plan time and a second prune deletes the packs (replay of slow_prune_refuted on the real code: check clean=%s, snapshots failing restore=%s, further prune ok=%s)"
+                ctx.violation("a backup shorter than keep_delete (%s ms < %s ms) loses data when a slow prune (parked during repacking) publishes its marks and a second prune deletes the packs (slow-prune schedule on the real code: check clean=%s, snapshots failing restore=%s, further prune ok=%s)"
                               % (h["durB"], int(h["kd"]) * 10, h["clean"], h["badrestore"], h["further"]),
                               {"case": ln, "how_to_replay": "echo '<case>' | <harness>/debug/c10 -", "result": segs_short(h),
-                               "model_timely": mh.get("timely"), "model_short_backups": mh.get("short")},
+                               "model_timely": mh.get("timely"), "model_premise": mh.get("premise")},
                               signature=SIG)
-            # correspondence for the witness run: the model must also lose the blob
-            if m and mh.get("run") == "ok" and lost and mh.get("stored_final") == "true":
-                mism.append((ln, "real run loses data, model run does not", m[:300]))
+            elif h.get("firstA") == "pack":
+                stats["slow_prune_safe_runs"] += 1
             continue
         if lost:
             if not short:
@@ -214,7 +232,7 @@ def run(ctx):
         if m:
             if mh.get("run") != "ok":
                 mism.append((ln, "real operation log is not a path of the model: " + mh.get("run", "?"), m[:300]))
-            elif not final_equal(mfin, fin):
+            elif not final_equal(mfin, fin, "index" in (h.get("parkopA"), h.get("parkopB")) and h["A"][0] + h["B"][0] != "BB"):
                 mism.append((ln, "final abstract state differs", "model: %s\nreal:  %s" % (mfin[:1500], fin[:1500])))
             elif (mh.get("closed_final") == "true") != (not lost) and int(h["kd"]) > 0:
                 mism.append((ln, "model says closed_final=%s, real oracle lost=%s" % (mh.get("closed_final"), lost), m[:300]))
